@@ -22,15 +22,18 @@ TermPositions == {"fact_term", "fact_in_array", "fact_in_set", "fact_map_value",
                   "rule_head_term", "rule_body_term", "rule_body_in_array", "rule_expr_value", "rule_expr_in_array",
                   "rule_closure_body", "rule_closure_in_array",
                   "check_body_term", "check_body_in_array", "check_expr_value", "check_expr_in_array",
-                  "policy_body_term", "policy_expr_value", "policy_expr_in_set"}
-ScopePositions == {"rule_scope", "check_scope", "policy_scope"}
+                  "policy_body_term", "policy_expr_value", "policy_expr_in_set",
+                  \* the same parameter in several alternatives / several places of one item
+                  "check_two_alternatives", "policy_two_alternatives", "rule_head_and_body", "fact_twice"}
+ScopePositions == {"rule_scope", "check_scope", "policy_scope", "check_scope_two_alternatives", "policy_scope_two_alternatives"}
 Positions == TermPositions \cup ScopePositions
 
 TermValues == {"int", "string", "string_with_datalog", "string_with_quote_newline", "bool", "date", "bytes", "set", "array", "map", "null"}
 ScopeValues == {"key_ed25519", "key_secp256r1"}
 
 \* where the item lives
-Holder(pos) == IF pos \in {"policy_body_term", "policy_expr_value", "policy_expr_in_set", "policy_scope"} THEN "authorizer" ELSE "block"
+Holder(pos) == IF pos \in {"policy_body_term", "policy_expr_value", "policy_expr_in_set", "policy_scope",
+                             "policy_two_alternatives", "policy_scope_two_alternatives"} THEN "authorizer" ELSE "block"
 
 \* values that may stand at a position
 Fits(pos, v) ==
